@@ -303,6 +303,9 @@ func reifyStruct(opts *options, orig reflect.Value, cfg *Config) Error {
 					if err := reifyInto(fInfo.options, fInfo.value, cfg); err != nil {
 						return err
 					}
+					if err := runValidators(fInfo.value.Interface(), fInfo.validatorTags); err != nil {
+						return raiseValidation(cfg.ctx, cfg.metadata, "", err)
+					}
 				case reflect.Slice, reflect.Array:
 					fopts := fieldOptions{opts: fInfo.options, tag: fInfo.tagOptions, validators: fInfo.validatorTags}
 					v, err := reifyMergeValue(fopts, fInfo.value, cfgSub{cfg})
@@ -504,6 +507,9 @@ func reifyValue(
 		newMap := reflect.MakeMap(baseType)
 		if err := reifyInto(opts.opts, newMap, sub); err != nil {
 			return reflect.Value{}, err
+		}
+		if err := runValidators(newMap.Interface(), opts.validators); err != nil {
+			return reflect.Value{}, raiseValidation(val.Context(), val.meta(), "", err)
 		}
 		return pointerize(t, baseType, newMap), nil
 
